@@ -466,6 +466,50 @@ func arithLayers(j judge, tier string) []Layer {
 			},
 		})
 	}
+	// L11: the one non-zero discarded digit sits in a single low word, at every word position of a long
+	// mantissa (the sticky scan must look at every word), all other discarded digits zero
+	{
+		lens := []int{3, 4, 5, 6, 7, 8, 9, 10, 12, 13, 16, 17, 20}
+		layers = append(layers, Layer{
+			Name:   "L11-sticky-word-position",
+			Units:  len(lens),
+			Bounds: fmt.Sprintf("x = n-word mantissa (n in %v): kept words + rounding word {0, 5·10^18} + zero words with one word = 1 or 10^18 at every position below; Set / SetPrec / Neg / Add(x, +0) / Quo(x, 1) / Mul(x, 1) to precision {19, 20, 38} (last kept digit even and odd), 6 modes", lens),
+			Run: func(c *Ctx, u int) {
+				n := lens[u]
+				one := mkInt64(1, 0, 5, 0)
+				zero := mkSpecial(fZero, false, 5, 0)
+				for pos := 0; pos < n-2; pos++ {
+					for _, sw := range []uint64{1, BW / 10} {
+						for _, rw := range []uint64{0, BW / 2} {
+							for _, last := range []uint64{BW/10 + 2, BW/10 + 3} {
+								for _, neg := range []bool{false, true} {
+									if c.Done() {
+										return
+									}
+									w := make([]uint64, n)
+									w[n-1], w[n-2], w[pos] = last, rw, sw
+									if pos == n-2 {
+										continue
+									}
+									xo := mkWords(neg, w, 3, 0, ToNearestAway)
+									x := xo.Build()
+									for _, p := range []uint32{19, 20} {
+										for _, m := range M6 {
+											unaryCase(c, j, opSet, xo, p, m)
+											unaryCase(c, j, opSetPrec, xo, p, m)
+											unaryCase(c, j, opNeg, xo, p, m)
+										}
+									}
+									binSweep(c, j, []int{opAdd}, xo, zero, x, zero.Build(), []uint32{19, 20}, M6)
+									binSweep(c, j, []int{opQuo, opMul}, xo, one, x, one.Build(), []uint32{19, 20}, M6)
+								}
+							}
+						}
+					}
+				}
+			},
+		})
+	}
 	// L10: operands made of words at the binary boundaries of the registers (public-API counterpart of C07 K3)
 	{
 		vecs := WVecs(2, Sbin)
@@ -511,7 +555,7 @@ func arithLayers(j judge, tier string) []Layer {
 		layers = append(layers, Layer{
 			Name:   "L3-runlength",
 			Units:  len(strs),
-			Bounds: fmt.Sprintf("x = d1 c^j d2 (c in {0,9}, j <= %d; ties, near-ties, all-nines) × ±; Set/SetPrec/Neg/Abs at every prec 1..len+1, 6 modes; x ± (1 unit at the rounding position, sticky-only addend) via Add/Sub", J),
+			Bounds: fmt.Sprintf("x = d1 c^j d2 (c in {0,9}, j <= %d; ties, near-ties, all-nines) × ±; Set/SetPrec/Neg/Abs at every prec 1..len+1, 6 modes (for a third of the cases also with the value held in a mantissa with 1–2 trailing zero words); x ± (1 unit at the rounding position, sticky-only addend) via Add/Sub", J),
 			Run: func(c *Ctx, u int) {
 				s := strs[u]
 				coef := mustInt(s)
@@ -519,10 +563,21 @@ func arithLayers(j judge, tier string) []Layer {
 				for _, neg := range []bool{false, true} {
 					xo := mkCoef(neg, coef, -int64(len(s))+1, L+2, 0)
 					x := xo.Build()
+					// the same value held in a mantissa with 1–2 trailing zero words (computed at a larger precision)
+					var xz []*Opnd
+					for _, zw := range []int{1, 2} {
+						o := *xo
+						o.Words = append(make([]uint64, zw), xo.Words...)
+						o.Prec = uint32(len(o.Words) * DW)
+						xz = append(xz, &o)
+					}
 					for p := uint32(1); p <= L+1; p++ {
 						for _, m := range M6 {
 							for _, op := range []int{opSet, opSetPrec, opNeg, opAbs} {
 								unaryCase(c, j, op, xo, p, m)
+								if u%3 == int(p)%3 {
+									unaryCase(c, j, op, xz[int(p)%2], p, m)
+								}
 							}
 						}
 						if c.Done() {
@@ -602,7 +657,7 @@ func arithLayers(j judge, tier string) []Layer {
 		layers = append(layers, Layer{
 			Name:   "L7-longdividend",
 			Units:  len(ys),
-			Bounds: "Quo(x,y), x = q·y·10^(19k) + δ with k in 1..3 and δ in {0, 1, 10^(19k)−1, 5·10^(19k−1)}: the dividend has up to 3 more words than prec+1 quotient digits need and the retained words divide exactly; q in 7 ints ∪ W(1,S7), y in 9 ints ∪ W(2,S7); prec {1,2,3,digits(q),digits(q)+1,19,20,38}; 6 modes",
+			Bounds: "Quo(x,y), x = q·y·10^(19k) + δ with k in 1..3 and δ in {0, 1, 10^(19k)−1, 5·10^(19k−1)}: the dividend has up to 3 more words than prec+1 quotient digits need (plus 0–2 trailing zero words in its mantissa) and the retained words divide exactly; q in 7 ints ∪ W(1,S7), y in 9 ints ∪ W(2,S7); prec {1,2,3,digits(q),digits(q)+1,19,20,38}; 6 modes",
 			Run: func(c *Ctx, u int) {
 				yi := ys[u]
 				yo := mkCoef(false, yi, 0, uint32(ndigits(yi))+19, 0)
@@ -628,6 +683,14 @@ func arithLayers(j judge, tier string) []Layer {
 							xo := mkCoef(false, xi, -7, uint32(ndigits(xi))+1, 0)
 							x := xo.Build()
 							binSweep(c, j, []int{opQuo}, xo, yo, x, y, []uint32{1, 2, 3, dq, dq + 1, 19, 20, 38}, M6)
+							// the same dividend held in a mantissa with trailing zero words (as exact products,
+							// quotients and values computed at a larger precision have)
+							for _, zw := range []int{1, 2} {
+								xz := *xo
+								xz.Words = append(make([]uint64, zw), xo.Words...)
+								xz.Prec = uint32(len(xz.Words) * DW)
+								binSweep(c, j, []int{opQuo}, &xz, yo, xz.Build(), y, []uint32{1, 3, dq, 19, 20}, M6)
+							}
 						}
 					}
 				}
